@@ -22,6 +22,8 @@ DECIDED = ('(a) an upload window never reads outside its part: BytesIOProxy.read
            'and text values are decoded from exactly their own section (seek(start), read(end - start)); (e) no byte of '
            'one part leaks into another through scanner state: the delimiter found resets the carried remainder and a '
            'refuted remainder does not skip the search (shared with C06.c / C06.e / C06.g).')
+DECIDED_MORE = ('Also: the reader premise of C04; every store of the upload window position is clamped into [start, end].')
+DECIDED = DECIDED + ' ' + DECIDED_MORE
 NOT_DECIDED = ('the round trip itself (equality of decoded values with what was encoded over unbounded field lists); non-ASCII '
                'handling; content types of uploads.')
 ASSUMPTIONS = ['io.BytesIO / file seek+read semantics', 'the multipart encoder under test is RFC 7578 conformant']
